@@ -339,7 +339,7 @@ PROPS = {
                    "at the end the snapshot taken before close() must equal the snapshot after a ReadOnly reopen, after a ReadWrite reopen and "
                    "(40% of the cases) the snapshot printed by a freshly started process",
         level_note="snapshot = every getter of every entity incl. all stored data, ids, created_at, links and order; updated_at excluded",
-        quick=dict(cases=400, size=400, workers=16, timeout=1800),
+        quick=dict(cases=250, size=400, workers=16, timeout=1800),
         thorough=dict(cases=8000, size=400, workers=16, timeout=14400),
         rule="tape -> program (profile Valid). Non-trivial: at least one successful delete/unlink, entities of at least 4 kinds besides the file, "
              "and at least one link alive at the final close. Distinct = hash of the decoded program.",
